@@ -131,7 +131,9 @@ def opHNorm : RM Res := do
   let m := normalizeNear now prev
   let ok := r.toBits == m.toBits || (r == m) || (r.isNaN && m.isNaN)
   let mut preds : List (String × Bool × String) := []
-  if now.abs ≤ piF && prev.abs ≤ 2.0 * piF then
+  -- two passes of the adjustment reach the nearest representative whenever the two angles are at most 5π apart
+  -- (`normalizeNear_nearest_wide`): an answer in [-π, π] against a reference up to 4π away (centres of wrapping limits)
+  if (now.abs ≤ piF && prev.abs ≤ 2.0 * piF) || (now - prev).abs ≤ 5.0 * piF - 1e-9 then
     preds := preds ++ [("C04.h_nearest", (r - prev).abs ≤ piF + 1e-12 && angEquiv 1e-12 r now, s!"normalize_near({now},{prev}) = {r}")]
   pure (mkRes ok s!"normalize_near({now},{prev}): impl {r} model {m}" preds)
 
